@@ -22,7 +22,7 @@ for pid in sorted(PROPS):
         'evidence_file': 'evidence/%s.json' % pid,
         'replay_cmd_template': 'bin/check %s --replay {path}' % pid,
         'engine': s['engine'],
-        'level_claimed': {'category': 'proof', 'text': LEVEL_TEXT.get(pid, s.get('level_text', '')), 'design_ref': 'DESIGN.md §4 ' + pid},
+        'level_claimed': {'category': 'proof', 'text': LEVEL_TEXT.get(pid, s.get('level_text', '')), 'design_ref': 'DESIGN.md §4 ' + pid + ' (plan) and §10 (as built)'},
         'level_note': s.get('level_note', '') or ('Trusted: Lean kernel; extractor leaf table; hand-written statement structure of the model, tied to the code by the correspondence check of engine `%s`; ' % s['engine'] + '; '.join(s.get('assumptions', []))),
         'technique': s.get('technique', 'Lean 4 theorems over a model regenerated (decision expressions) from the Go source + differential correspondence check'),
     })
